@@ -165,6 +165,14 @@ impl Part for RandomText {
 
 fn random_strategy() -> impl Strategy<Value = (String, bool)> {
     // encodable repertoire: ASCII + characters present in the reference tables (a fixed sample per codepage)
+    let tables = crate::refs::cp::tables();
+    let awkward: Vec<char> = tables
+        .iter()
+        .flat_map(|t| t.entries.iter())
+        .filter(|(w, _)| w.len() == 2 && (w[1] == 0x5E || w[1] >= 0x81))
+        .map(|(_, c)| *c)
+        .step_by(37)
+        .collect();
     let encodable: Vec<char> = "éüßñÿ€ωλΞшюЖěšłűışğūņķ美日本ﾏ한글가漢字你好".chars().collect();
     let enc = proptest::collection::vec(
         prop_oneof![
@@ -174,6 +182,14 @@ fn random_strategy() -> impl Strategy<Value = (String, bool)> {
             3 => prop::sample::select(RESERVED.to_vec()),
             3 => proptest::char::range(' ', '~'),
             3 => prop::sample::select(encodable),
+            // any character of the ten reference repertoires (double-byte characters with every lead / trail byte shape,
+            // e.g. a trail byte that is a caret or lies in the lead-byte range)
+            3 => (0..tables.len(), any::<prop::sample::Index>()).prop_map(move |(t, ix)| {
+                let e = &tables[t].entries;
+                e[ix.index(e.len())].1
+            }),
+            // double-byte characters whose trail byte is '^' (0x5E) or a lead byte, next to carets and codepage letters
+            2 => prop::sample::select(awkward),
         ],
         0..64,
     )
